@@ -91,7 +91,7 @@ def evaluate(plan, ctx):
             se = sim.bandit_to_expectations[name]
             if isinstance(se, dict):
                 se = [se]
-            got_e = [canon_sim_expectations(x, arms) for x in se]
+            got_e = [canon_sim_expectations(x, list(cfg["arms"])) for x in se]
             if len(got_e) != len(ea) or not ops.same(got_e, ea, rtol=1e-9, atol=1e-9):
                 raise Violation("expectations_differ", "%s (%s / %s): simulator %s, API %s"
                                 % (name, cfg["lp"], cfg["np"], ops.short(got_e, 300), ops.short(ea, 300)),
